@@ -83,7 +83,16 @@ class RenameDuplicateClasses(ContainerHandlerInterface):
 
     def add_abstract_suffix(self, target: Class) -> None:
         """Add the abstract suffix to class name."""
-        new_qname = f"{target.qname}_abstract"
+        namespace, name = namespaces.split_qname(target.qname)
+        new_name = f"{name}_abstract"
+        new_qname = namespaces.build_qname(namespace, new_name)
+        reserved = self.get_reserved()
+        cmp = text.alnum(new_name if self.use_names else new_qname)
+        if cmp in reserved:
+            new_qname = self.next_qname(namespace, new_name)
+        else:
+            reserved.add(cmp)
+
         self.rename_class(target, new_qname)
 
     def add_numeric_suffix(self, target: Class) -> None:
